@@ -1,6 +1,7 @@
 import Mastverif.Lemmas.RefCursor
 import Mastverif.Lemmas.RefSeek
 import Mastverif.Props.C10O
+import Mastverif.Lemmas.RefCursorRetry
 /-!
 # C12 for navigation and read calls at the level of node objects (property theorems, partial)
 
@@ -17,10 +18,14 @@ For the object-level cursor (`Model/PtrCursor.lean`), `Iter` and `SeekIter`:
   cursor's next position.
 * `C12_failed_read_partial`: `Iter` and `SeekIter` that return an error have only allocated: every
   tree denotes what it denoted.
-Partial: `Min` / `Max` / `Ceil` called directly leave, when they fail, the path walked so far (still
-a path that denotes something: `NavPost`); that the retried placement ends where the unfailed one
-would is carried by the `faults` family (same cursor driven through faulted calls and retried), not
-by a theorem.  Failing key comparisons are not modelled.
+* `C12_failed_placement_resumes`: a `Min` / `Max` / `Ceil` that reports an error — a load failing at
+  ANY depth of its descent — leaves the path it has walked so far (the Go code does not restore it),
+  every tree denotes what it denoted, and the same placement called again on the same cursor (under
+  any later pattern of faults `E2`) resumes from there: when it reports no error its path denotes
+  exactly the position the uninterrupted placement computes from the ORIGINAL path (`Cursor.min /
+  max / ceil`, hence by `C10_walk` the least / greatest / ceiling entry).  Side condition
+  `PlaceDone`: the model's loop fuel covers the descent (the Go loops have no fuel).
+Partial: failing key comparisons are not modelled (family `faults`).
 -/
 namespace Mast.Ptr
 open Mast.Heap Mast
@@ -56,6 +61,92 @@ theorem C12_failed_read_partial (E : Env) (t : PTree) (f k g : Nat) (s s' : PS) 
       unfold Spec at this; rw [h] at this; exact this
   exact ⟨hgr.good hg, fun g2 t2 B hB ho => ⟨(hgr.tree hB ho).1, (hgr.tree hB ho).2.1⟩⟩
 
+/-- the model's loop fuel `f` covers the descent of the placement from `P` -/
+def PlaceDone (f : Nat) (P : Path) : CPlace → Prop
+  | .min => Cursor.MinDoneP f P
+  | .max => match P with
+      | [] => True
+      | (row, _) :: _ => Cursor.MaxDone f row
+  | .ceil k => Cursor.CeilDone k f P
+
+def placeFrom (f : Nat) (P : Path) : CPlace → Path
+  | .min => Cursor.min f P
+  | .max => Cursor.max f P
+  | .ceil k => Cursor.ceil k f P
+
+theorem C12_failed_placement_resumes (E E2 : Env) (g f : Nat) (opath : CPath) (s s1 : PS) (P : Path)
+    (pl : CPlace) (r : CPath × Bool) (hg : Good s) (hp : PathRep w s g opath P) (hfuel : PlaceDone f P pl)
+    (h : cPlace E f opath pl s = .ok r s1) (herr : r.2 = true) :
+    Good s1 ∧
+    (∀ g2 t2 B, repTree s g2 t2 = some B → FpOwned s.heap t2.id (footprint s g2 t2) →
+      repTree s1 g2 t2 = some B ∧ FpOwned s1.heap t2.id (footprint s1 g2 t2)) ∧
+    Spec (Grow w) (cPlace E2 f r.1 pl) s1 (NavPost w g (placeFrom f P pl)) := by
+  cases pl with
+  | min =>
+    have hs := cMin_fail (m := w) E g f opath s P hg hp
+    simp only [cPlace] at h ⊢
+    unfold Spec at hs
+    rw [h] at hs
+    obtain ⟨P2, hp2, hpar⟩ := hs.2 herr
+    have hg1 := hs.1.good hg
+    refine ⟨hg1, fun g2 t2 B hB ho => ⟨(hs.1.tree hB ho).1, (hs.1.tree hB ho).2.1⟩, ?_⟩
+    have := cMin_spec (m := w) E2 g f r.1 s1 P2 hg1 hp2
+    rw [Cursor.min_resume hpar hfuel] at this
+    exact this
+  | max =>
+    simp only [cPlace] at h ⊢
+    match opath, P, hp with
+    | [], [], _ =>
+      simp only [cMax, pure, M.pure] at h
+      injection h with h1 h2
+      subst h1
+      exact nomatch herr
+    | (a, i) :: o, (row, j) :: p, hp =>
+      have hs := cMax_fail (m := w) E g f _ s row j p hg hp
+      unfold Spec at hs
+      rw [h] at hs
+      obtain ⟨P2, hp2, n2, P3, rfl, hpar⟩ := hs.2 herr
+      have hg1 := hs.1.good hg
+      refine ⟨hg1, fun g2 t2 B hB ho => ⟨(hs.1.tree hB ho).1, (hs.1.tree hB ho).2.1⟩, ?_⟩
+      have := cMax_spec (m := w) E2 g f r.1 s1 _ hg1 hp2
+      simp only [Cursor.max] at this
+      rw [Cursor.max_resume hpar hfuel] at this
+      exact this
+  | ceil k =>
+    have hs := cCeil_fail (m := w) E g k f opath s P hg hp
+    simp only [cPlace] at h ⊢
+    unfold Spec at hs
+    rw [h] at hs
+    obtain ⟨P2, hp2, hpar⟩ := hs.2 herr
+    have hg1 := hs.1.good hg
+    refine ⟨hg1, fun g2 t2 B hB ho => ⟨(hs.1.tree hB ho).1, (hs.1.tree hB ho).2.1⟩, ?_⟩
+    have := cCeil_spec (m := w) E2 g k f r.1 s1 P2 hg1 hp2
+    rw [Cursor.ceil_resume hpar hfuel] at this
+    exact this
+
+/-- non-vacuity, on tree 2 of the system reached by the history of `Lemmas/RefHistExample.lean`
+    (entries 3, 4, 5, 7, 8, partly in the store), with a cold node cache: the placement runs with the `k`-th load failing,
+    then again on the path it left; reported: did the first call fail, and the entry the cursor
+    shows after the second -/
+def hxRetry (pl : CPlace) (k : Nat) : Option (Bool × Option (Nat × Nat)) :=
+  hxSys.trees[2]?.bind fun t =>
+    match cursorNew hxEnv t 99 10 { hxSys.ps with cache := [] } with
+    | .ok (_, path) s0 =>
+      match cPlace { hxEnv with failAt := fun n => n == s0.tick + k } 10 path pl s0 with
+      | .ok r1 s1 =>
+        match cPlace hxEnv 10 r1.1 pl s1 with
+        | .ok r2 s2 =>
+          match cGet r2.1 s2 with
+          | .ok e _ => some (r1.2, e)
+          | _ => none
+        | _ => none
+      | _ => none
+    | _ => none
+
+example : hxRetry .min 0 = some (true, some (3, 30)) ∧ hxRetry (.ceil 6) 0 = some (true, some (7, 70)) ∧
+    hxRetry .min 1 = some (false, some (3, 30)) ∧ hxRetry .max 0 = some (false, some (8, 80)) := by decide +kernel
+
 end Mast.Ptr
+#print axioms Mast.Ptr.C12_failed_placement_resumes
 #print axioms Mast.Ptr.C12_failed_cursor_move_partial
 #print axioms Mast.Ptr.C12_failed_read_partial
